@@ -374,6 +374,78 @@ def unit_unsorted(method, perm, y_at):
     return kit.run_unit("unsorted[%s,%s,y_at_%s]" % (method, "".join(map(str, perm)), y_at), run)
 
 
+def unit_reuse(method):
+    """one Interp1D object (unsorted samples, y at call time) used repeatedly with y of different batch shapes: every call
+    gives the interpolant of the y it was given (the object is not changed by a call)"""
+    perm = (2, 0, 3, 1)
+    n = len(perm)
+
+    def run():
+        c = ctx()
+        s = sorted_knots(c, n, "s")
+        xu = arr.Tensor([s.a[perm[i]] for i in range(n)])
+        q = arr.sym("q", (2,))
+        for p in range(2):
+            c.assume(z3.And(q.a[p] >= s.a[0], q.a[p] <= s.a[n - 1]))
+        tag = "reuse[%s]" % method
+        with arr_torch() as m:
+            obj = m["ip"].Interp1D(xu, method=method)
+            ys_seq = [arr.sym("ya", (2, n)), arr.sym("yb", (n,)), arr.sym("yc", (3, n))]
+            outs = []
+            for k, yk in enumerate(ys_seq):
+                ok, out = kit.call_or_fail(c, tag + ":call_%d_does_not_raise" % k, lambda yk=yk: obj(q, yk))
+                if not ok:
+                    return
+                outs.append(out)
+        for k, (yk, out) in enumerate(zip(ys_seq, outs)):
+            want_shape = tuple(yk.shape[:-1]) + (2,)
+            c.check(tag + ":call_%d_result_has_the_batch_shape_of_its_own_y" % k, out.shape == want_shape, detail="shape %s, expected %s" % (out.shape, want_shape))
+            if out.shape != want_shape:
+                continue
+            if method == "linear":
+                rows = [()] if len(yk.shape) == 1 else [(b,) for b in range(yk.shape[0])]
+                for b in rows:
+                    ysrt = [None] * n
+                    for i in range(n):
+                        ysrt[perm[i]] = yk.a[b + (i,)]
+                    value_obligations(c, tag + "[call %d]" % k, method, s.a, ysrt, None, q.a, out.a[b] if b else out.a, n)
+    return kit.run_unit("reuse[%s]" % method, run)
+
+
+def unit_batched_x(bc):
+    """batched sample positions (every batch element has its own grid): each row is its own spline"""
+    n, nq, nb = 4, 2, 2
+
+    def run():
+        c = ctx()
+        x = arr.sym("x", (nb, n))
+        for b in range(nb):
+            for k in range(n - 1):
+                c.assume(x.a[b, k] < x.a[b, k + 1])
+        y = arr.sym("y", (nb, n))
+        q = arr.sym("q", (nb, nq))
+        for b in range(nb):
+            for p in range(nq):
+                c.assume(z3.And(q.a[b, p] >= x.a[b, 0], q.a[b, p] <= x.a[b, n - 1]))
+            if bc == "periodic":
+                c.assume(y.a[b, 0] == y.a[b, n - 1])
+        tag = "batched_x[cspline/%s]" % bc
+        with arr_torch() as m:
+            ok, out = kit.call_or_fail(c, tag + ":does_not_raise", lambda: m["ip"].Interp1D(x, y, method="cspline", assume_sorted=True, bc_type=bc)(q))
+        if not ok:
+            return
+        c.check(tag + ":result_shape_is_batch_by_queries", out.shape == (nb, nq))
+        if out.shape != (nb, nq):
+            return
+        Kall = solved_slopes(c)
+        eqs_all = c.ghost["arr_tagged"]["solve"][-nb * n:]
+        for b in range(nb):
+            K = Kall[b, :, 0]
+            slope_conditions(c, tag + "[row %d]" % b, bc, x.a[b], y.a[b], K, n, eqs_all[b * n:(b + 1) * n])
+            value_obligations(c, tag + "[row %d]" % b, "cspline", x.a[b], y.a[b], K, q.a[b], out.a[b], n)
+    return kit.run_unit("batched_x[cspline/%s]" % bc, run)
+
+
 def unit_batched(method, y_at):
     n, nq, nb = 4, 2, 2
 
@@ -564,6 +636,20 @@ def unit_extrap_batched():
     return kit.run_unit("extrap_batched", run)
 
 
+def unit_gradients_bounded():
+    """bounded stand-in on real torch (never counted as proved): derivatives w.r.t. y and the query points against
+    central differences, inside the range and for every extrapolation mode that maps queries into the range"""
+    import re
+
+    def run():
+        c = ctx()
+        r = kit.concrete_replay("C14", ["query_and_value_gradients"])
+        c.check("bounded[real torch].oracle_ran", r["returncode"] in (0, 1), detail=r["output"][-300:], kind="bounded")
+        for name, verdict in re.findall(r"ORACLE (\S+): (holds|VIOLATED[^\n]*)", r["output"]):
+            c.check("bounded[real torch,central differences].%s" % name, verdict == "holds", detail=verdict[:500], kind="bounded")
+    return kit.run_unit("gradients_bounded", run)
+
+
 def units(tier):
     us = []
 
@@ -587,10 +673,14 @@ def units(tier):
             add("unsorted[%s,%s,y_at_%s]" % (mth, "".join(map(str, perm)), y_at), lambda mth=mth, perm=perm, y_at=y_at: unit_unsorted(mth, perm, y_at))
         for y_at in ("init", "call"):
             add("batched_y[%s,y_at_%s]" % (mth, y_at), lambda mth=mth, y_at=y_at: unit_batched(mth, y_at))
+        add("reuse[%s]" % mth, lambda mth=mth: unit_reuse(mth))
+    for bc in ("natural", "clamped", "not-a-knot"):
+        add("batched_x[cspline/%s]" % bc, lambda bc=bc: unit_batched_x(bc))
     for mth, mode in (("linear", "nan"), ("linear", "constant"), ("linear", "tensor_constant"), ("linear", "callable"), ("linear", "bound"),
                       ("linear", "mirror"), ("linear", "periodic"), ("cspline", "nan"), ("cspline", "bound"), ("cspline", "mirror"),
                       ("cspline", "periodic"), ("cspline", "default_clamped"), ("cspline", "default_periodic"), ("cspline", "default_other"),
                       ("cspline", "callable")):
         add("extrap[%s,%s]" % (mth, mode), lambda mth=mth, mode=mode: unit_extrap(mth, mode))
     add("extrap_batched", unit_extrap_batched)
+    add("gradients_bounded", unit_gradients_bounded)
     return us
